@@ -4,6 +4,7 @@ package main
 // built-in functions, loop cutting.
 
 import (
+	"go/parser"
 	"sort"
 	"fmt"
 	"go/ast"
@@ -446,6 +447,33 @@ func (x *Exec) invoke(st *State, fr *Frame, site ssa.Instruction, cc *ssa.CallCo
 		}
 	}
 	c := x.cs.Funcs[key]
+	if c == nil && cc.Method.Pkg() != nil && strings.HasPrefix(cc.Method.Pkg().Path(), "github.com/go-netty/") {
+		// an interface of the repository itself without a contract (typically one introduced by a
+		// change): the call is an event that may do anything - obligations that depend on what
+		// happens around it fail by name instead of the whole function being undecided
+		dk := "default-iface:" + strings.TrimPrefix(key, "iface:")
+		c = x.cs.Funcs[dk]
+		if c == nil {
+			short := strings.TrimPrefix(key, "iface:")
+			if i := strings.LastIndex(short, "/"); i >= 0 {
+				short = short[i+1:]
+			}
+			if i := strings.Index(short, "."); i >= 0 {
+				short = short[i+1:]
+			}
+			t := tTrue
+			_ = t
+			c = &Contract{Key: dk, Short: short, Assumed: true, Iface: true, Event: true, Modifies: []string{"all"},
+				Loops: map[int]*LoopSpec{}, PureParams: map[string]bool{}}
+			mp := Clause{Src: "true", Label: ""}
+			if e, err := parser.ParseExpr("true"); err == nil {
+				mp.Expr = e
+				c.MayPanic = &mp
+			}
+			x.cs.Funcs[dk] = c
+		}
+		key = dk
+	}
 	if c == nil {
 		engineErr("no contract for interface method %s (called from %s)", key, fr.fn)
 	}
